@@ -509,19 +509,6 @@ func SingleDef(info *types.Info, root ast.Node, e ast.Expr) (Def, bool) {
 		return Def{}, false
 	}
 	ds := DefsOf(info, root, v)
-	if len(ds) > 1 {
-		// `var x T` without a value followed by exactly one assignment
-		var real []Def
-		for _, d := range ds {
-			if _, isDecl := d.Stmt.(*ast.ValueSpec); isDecl && d.Rhs == nil {
-				continue
-			}
-			real = append(real, d)
-		}
-		if len(real) == 1 && len(ds) == 2 {
-			return real[0], true
-		}
-	}
 	if len(ds) != 1 {
 		return Def{}, false
 	}
@@ -623,7 +610,18 @@ func ViewBodies(p *core.Program, fn *core.Fn, tag string, opaque func(*types.Fun
 		})
 		for _, fl := range lits {
 			k++
+			first := len(out)
 			add(fmt.Sprintf("%s$%d", name, k), ViewOfLit(p, info, fl, tag, opaque), outer, depth)
+			if first < len(out) {
+				// a sink on the literal's own parameter belongs to where the literal is called
+				params := map[types.Object]bool{}
+				for _, f := range fl.Type.Params.List {
+					for _, n := range f.Names {
+						params[info.Defs[n]] = true
+					}
+				}
+				out[first].Params = params
+			}
 		}
 		if depth == 0 {
 			return
